@@ -160,6 +160,7 @@ MUTS = {
  'N30-list-write-reports-the-value-handed-in-not-the-stored-one (seeded C09-15)': (L, """        self._value_spec.element if self._value_spec else None,
         old_value, new_value)""", """        self._value_spec.element if self._value_spec else None,
         old_value, value)"""),
+ 'N31-memos-reset-before-any-handler-runs (seeded C09-14)': ('PATCH', 'seeded/C09-14/patch.diff', ''),
 }
 only = sys.argv[1:]
 for name, (path, old, new) in MUTS.items():
